@@ -182,6 +182,42 @@ Proof.
   unfold be4 in Ht. inversion Ht as [[Hty E3 E2 E1 E0]]. split; [reflexivity|]. apply be4_inj; try assumption. unfold be4. now rewrite E3, E2, E1, E0.
 Qed.
 
+(* ---------- MPI normalisation ---------- *)
+Lemma be_value_zeros k l : be_value (repeat 0 k ++ l) = be_value l.
+Proof.
+  unfold be_value. rewrite fold_left_app. replace (fold_left (fun acc b : N => N.shiftl acc 8 + b) (repeat 0 k) 0) with 0; [reflexivity|].
+  induction k; cbn [repeat fold_left]; [reflexivity|]. cbn. exact IHk.
+Qed.
+
+Lemma be_value_sexp_mpi v : be_value (sexp_mpi v) = v.
+Proof. unfold sexp_mpi. rewrite be_value_bytes. apply N.mod_small. apply size_bound. Qed.
+
+(* whatever leading zero octets the MPI encoding dropped, the primitive receives octet strings with exactly the values
+   of the two MPIs, of the fixed width 32 whenever the value is shorter: normalisation cannot change the verdict of a
+   primitive that reads R and S as 32-octet strings *)
+Theorem eddsa_sigval_values : forall r s a b, eddsa_sigval r s = Some (a, b) -> be_value a = r /\ be_value b = s.
+Proof.
+  intros r s a b H. unfold eddsa_sigval in H.
+  destruct ((mpi_octets r =? 0) || (32 <? mpi_octets r) || (mpi_octets s =? 0) || (32 <? mpi_octets s))%nat eqn:C; [discriminate|].
+  inversion H; subst. unfold eddsa_component.
+  assert (P : forall v, (mpi_octets v <? 32)%nat = true -> be_value (be_bytes 32 v) = v).
+  { intros v Hv. rewrite be_value_bytes. apply N.mod_small. eapply N.lt_le_trans; [apply size_bound|].
+    apply N.pow_le_mono_r; [discriminate|]. apply Nat.ltb_lt in Hv. lia. }
+  split.
+  - destruct (mpi_octets r <? 32)%nat eqn:E; [now apply P|apply be_value_sexp_mpi].
+  - destruct (mpi_octets s <? 32)%nat eqn:E; [now apply P|apply be_value_sexp_mpi].
+Qed.
+
+Theorem eddsa_sigval_padded : forall r s a b, eddsa_sigval r s = Some (a, b) ->
+  ((mpi_octets r < 32)%nat -> length a = 32%nat) /\ ((mpi_octets s < 32)%nat -> length b = 32%nat).
+Proof.
+  intros r s a b H. unfold eddsa_sigval in H.
+  destruct ((mpi_octets r =? 0) || (32 <? mpi_octets r) || (mpi_octets s =? 0) || (32 <? mpi_octets s))%nat; [discriminate|].
+  inversion H; subst. unfold eddsa_component. split; intro L.
+  - replace (mpi_octets r <? 32)%nat with true by lia. apply be_bytes_length.
+  - replace (mpi_octets s <? 32)%nat with true by lia. apply be_bytes_length.
+Qed.
+
 (* ---------- validity ---------- *)
 Theorem validity_rules_iff : forall current creation expiration keycreation h,
   check_validity current creation expiration keycreation h = Valid <->
